@@ -140,6 +140,13 @@ func (c *VCtx) rounds() int {
 	if c.instRounds > 0 {
 		return c.instRounds
 	}
+	if v := os.Getenv("SONICVC_ROUNDS"); v != "" {
+		n := 0
+		fmt.Sscanf(v, "%d", &n)
+		if n > 0 {
+			return n
+		}
+	}
 	return 2
 }
 
